@@ -124,6 +124,8 @@ func c08Run(c *Ctx, capSec int) {
 				d.Kind, d.RCode = "rc", 5
 			case strings.Contains(q.Name, "fliprc9"):
 				d.Kind, d.RCode = "rc", 9
+			case strings.Contains(q.Name, "fliptc"):
+				d.Kind = "tc" // the refresh is answered with a truncated reply (a stream upstream passes TC through)
 			default:
 				d.Kind, d.RCode = "rc", 2
 			}
@@ -157,6 +159,7 @@ func c08Run(c *Ctx, capSec int) {
 		keys = append(keys, c08Key{First: "ok-n2-ttl16-flipsf", Kind: "flip-servfail", Probes: []float64{1.0, 12.4, 12.9, 13.2, 13.5}, Flip: "sf"})
 		keys = append(keys, c08Key{First: "ok-n2-ttl16-flipnx", Kind: "flip-nx", Probes: []float64{1.0, 12.4, 12.9, 13.2, 13.5}, Flip: "nx"})
 		keys = append(keys, c08Key{First: "ok-n2-ttl16-fliprf", Kind: "flip-refused", Probes: []float64{1.0, 12.4, 12.9, 13.2, 13.5}, Flip: "rf"})
+		keys = append(keys, c08Key{First: "ok-n2-ttl16-fliptc", Kind: "flip-tc", Probes: []float64{1.0, 12.4, 12.9, 13.2, 13.5}, Flip: "tc"})
 		keys = append(keys, c08Key{First: "ok-n2-ttl16-fliprc9", Kind: "flip-rcode9", Probes: []float64{1.0, 12.4, 12.9, 13.2, 13.5}, Flip: "rc9"})
 	}
 	if thorough {
@@ -304,6 +307,10 @@ func c08Run(c *Ctx, capSec int) {
 				} else {
 					c.Ev.Distinct(cfgName, rk.Kind, "refetched")
 				}
+				continue
+			}
+			if fromCache && r.TC {
+				c.Violation("truncated-served-from-cache:"+rk.Kind, fmt.Sprintf("[%s] %s: a response with TC=1 was served without contacting the upstream: a truncated reply was stored", cfgName, rk.name), cs(r))
 				continue
 			}
 			// which entry was served? keyed: by serial; otherwise the latest fetch that completed before the query was sent
